@@ -553,54 +553,54 @@ theorem tagRel_length {o1 o2 : List LScope} (h : TagRel o1 o2) : o1.length = o2.
 
 def eraseTagPair (as : String × Src) : String × Src := (as.1, as.2.eraseTag)
 
-theorem expSrc_sim {mk1 mk2 : String → Option String} {r1 r2 : RecDef} (hr : RecSim r1 r2) (defs : List SrcDef)
+theorem expSrc_sim {mk1 mk2 : String → Option String} {r1 r2 : RecDef} (hr : RecSim r1 r2) (look : Look)
     (m : List Nat) (as : String × Src) (o1 o2 : List LScope) (h : TagRel o1 o2) :
-    eraseTagPair (expSrc mk1 r1 defs m as o1).1 = eraseTagPair (expSrc mk2 r2 defs m as o2).1 ∧
-      TagRel (expSrc mk1 r1 defs m as o1).2 (expSrc mk2 r2 defs m as o2).2 := by
+    eraseTagPair (expSrc mk1 r1 look m as o1).1 = eraseTagPair (expSrc mk2 r2 look m as o2).1 ∧
+      TagRel (expSrc mk1 r1 look m as o1).2 (expSrc mk2 r2 look m as o2).2 := by
   obtain ⟨a, s⟩ := as
   cases s with
   | scope i c r t => exact ⟨rfl, h⟩
   | table n =>
     simp only [expSrc]
-    cases findDef n defs with
+    cases look n with
     | none => exact ⟨rfl, h⟩
     | some d =>
       obtain ⟨h1, h2⟩ := hr d o1 o2 h
       refine ⟨?_, h1⟩
       simp only [eraseTagPair, Src.eraseTag, h2]
 
-theorem expSrcs_sim {mk1 mk2 : String → Option String} {r1 r2 : RecDef} (hr : RecSim r1 r2) (defs : List SrcDef)
+theorem expSrcs_sim {mk1 mk2 : String → Option String} {r1 r2 : RecDef} (hr : RecSim r1 r2) (look : Look)
     (m : List Nat) (srcs : List (String × Src)) :
     ∀ o1 o2, TagRel o1 o2 →
-      (expSrcs mk1 r1 defs m srcs o1).1.map eraseTagPair = (expSrcs mk2 r2 defs m srcs o2).1.map eraseTagPair ∧
-        TagRel (expSrcs mk1 r1 defs m srcs o1).2 (expSrcs mk2 r2 defs m srcs o2).2 := by
+      (expSrcs mk1 r1 look m srcs o1).1.map eraseTagPair = (expSrcs mk2 r2 look m srcs o2).1.map eraseTagPair ∧
+        TagRel (expSrcs mk1 r1 look m srcs o1).2 (expSrcs mk2 r2 look m srcs o2).2 := by
   induction srcs with
   | nil => intro o1 o2 h; exact ⟨rfl, h⟩
   | cons as rest ih =>
     intro o1 o2 h
-    obtain ⟨h1, h2⟩ := expSrc_sim (mk1 := mk1) (mk2 := mk2) hr defs m as o1 o2 h
+    obtain ⟨h1, h2⟩ := expSrc_sim (mk1 := mk1) (mk2 := mk2) hr look m as o1 o2 h
     obtain ⟨h3, h4⟩ := ih _ _ h2
     simp only [expSrcs, List.map_cons]
     exact ⟨by rw [h1, h3], h4⟩
 
-theorem expScope_sim {mk1 mk2 : String → Option String} {r1 r2 : RecDef} (hr : RecSim r1 r2) (defs : List SrcDef)
+theorem expScope_sim {mk1 mk2 : String → Option String} {r1 r2 : RecDef} (hr : RecSim r1 r2) (look : Look)
     (m : List Nat) (sc : LScope) (o1 o2 : List LScope) (h : TagRel o1 o2) :
-    (expScope mk1 r1 defs m sc o1).1.eraseTag = (expScope mk2 r2 defs m sc o2).1.eraseTag ∧
-      TagRel (expScope mk1 r1 defs m sc o1).2 (expScope mk2 r2 defs m sc o2).2 := by
+    (expScope mk1 r1 look m sc o1).1.eraseTag = (expScope mk2 r2 look m sc o2).1.eraseTag ∧
+      TagRel (expScope mk1 r1 look m sc o1).2 (expScope mk2 r2 look m sc o2).2 := by
   cases sc with
   | select projs fb srcs =>
-    obtain ⟨h1, h2⟩ := expSrcs_sim (mk1 := mk1) (mk2 := mk2) hr defs m srcs o1 o2 h
+    obtain ⟨h1, h2⟩ := expSrcs_sim (mk1 := mk1) (mk2 := mk2) hr look m srcs o1 o2 h
     refine ⟨?_, h2⟩
     simp only [expScope, LScope.eraseTag]
     congr 1
   | union op l r names => exact ⟨rfl, h⟩
   | wrap i => exact ⟨rfl, h⟩
 
-theorem expFrag_sim {mk1 mk2 : String → Option String} {r1 r2 : RecDef} (hr : RecSim r1 r2) (defs : List SrcDef)
+theorem expFrag_sim {mk1 mk2 : String → Option String} {r1 r2 : RecDef} (hr : RecSim r1 r2) (look : Look)
     (frag : List LScope) :
     ∀ m o1 o2, TagRel o1 o2 →
-      TagRel (expFrag mk1 r1 defs frag m o1).1 (expFrag mk2 r2 defs frag m o2).1 ∧
-        (expFrag mk1 r1 defs frag m o1).2 = (expFrag mk2 r2 defs frag m o2).2 := by
+      TagRel (expFrag mk1 r1 look frag m o1).1 (expFrag mk2 r2 look frag m o2).1 ∧
+        (expFrag mk1 r1 look frag m o1).2 = (expFrag mk2 r2 look frag m o2).2 := by
   induction frag with
   | nil =>
     intro m o1 o2 h
@@ -608,15 +608,15 @@ theorem expFrag_sim {mk1 mk2 : String → Option String} {r1 r2 : RecDef} (hr : 
     exact ⟨h, by rw [tagRel_length h]⟩
   | cons sc rest ih =>
     intro m o1 o2 h
-    obtain ⟨h1, h2⟩ := expScope_sim (mk1 := mk1) (mk2 := mk2) hr defs m sc o1 o2 h
+    obtain ⟨h1, h2⟩ := expScope_sim (mk1 := mk1) (mk2 := mk2) hr look m sc o1 o2 h
     simp only [expFrag]
     rw [tagRel_length h2]
     apply ih
     unfold TagRel at h2 ⊢
     simp only [List.map_append, List.map_cons, List.map_nil, h1, h2]
 
-theorem expandF_sim (mk1 mk2 : String → Option String) (defs : List SrcDef) :
-    ∀ f, RecSim (expandF mk1 defs f) (expandF mk2 defs f) := by
+theorem expandF_sim (mk1 mk2 : String → Option String) (look : Look) :
+    ∀ f, RecSim (expandF mk1 look f) (expandF mk2 look f) := by
   intro f
   induction f with
   | zero =>
@@ -628,12 +628,56 @@ theorem expandF_sim (mk1 mk2 : String → Option String) (defs : List SrcDef) :
   | succ f ih =>
     intro d o1 o2 h
     simp only [expandF]
-    exact expFrag_sim ih defs d.scopes [] o1 o2 h
+    exact expFrag_sim ih look d.scopes [] o1 o2 h
 
 /-- `expand` and hand-inlining produce the same scopes up to tags, and the same root -/
-theorem expandQ_sim (mk1 mk2 : String → Option String) (defs : List SrcDef) (fuel : Nat) (main : List LScope) :
-    (expandQ mk1 defs fuel main).1.map LScope.eraseTag = (expandQ mk2 defs fuel main).1.map LScope.eraseTag ∧
-      (expandQ mk1 defs fuel main).2 = (expandQ mk2 defs fuel main).2 :=
-  expFrag_sim (expandF_sim mk1 mk2 defs fuel) defs main [] [] [] rfl
+theorem expandQ_sim (mk1 mk2 : String → Option String) (look : Look) (fuel : Nat) (main : List LScope) :
+    (expandQ mk1 look fuel main).1.map LScope.eraseTag = (expandQ mk2 look fuel main).1.map LScope.eraseTag ∧
+      (expandQ mk1 look fuel main).2 = (expandQ mk2 look fuel main).2 :=
+  expFrag_sim (expandF_sim mk1 mk2 look fuel) look main [] [] [] rfl
+
+/-! keys normalised once -/
+
+theorem findKeyed_sound {k : String} {defs : List (String × List LScope)} {d : SrcDef}
+    (h : findKeyed k defs = some d) : d.name = k ∧ (k, d.scopes) ∈ defs := by
+  induction defs with
+  | nil => simp [findKeyed] at h
+  | cons x xs ih =>
+    obtain ⟨dk, sc⟩ := x
+    simp only [findKeyed] at h
+    cases hr : findKeyed k xs with
+    | some d' =>
+      rw [hr] at h
+      simp only [Option.some.injEq] at h
+      subst h
+      exact ⟨(ih hr).1, List.mem_cons_of_mem _ (ih hr).2⟩
+    | none =>
+      rw [hr] at h
+      simp only at h
+      split at h
+      · rename_i hk
+        simp only [Option.some.injEq] at h
+        subst h
+        subst hk
+        exact ⟨rfl, List.mem_cons_self⟩
+      · cases h
+
+theorem findKeyed_complete {k : String} {defs : List (String × List LScope)} (h : ∃ sc, (k, sc) ∈ defs) :
+    ∃ d, findKeyed k defs = some d := by
+  induction defs with
+  | nil => obtain ⟨_, h⟩ := h; cases h
+  | cons x xs ih =>
+    obtain ⟨dk, sc⟩ := x
+    simp only [findKeyed]
+    cases hr : findKeyed k xs with
+    | some d' => exact ⟨d', rfl⟩
+    | none =>
+      obtain ⟨sc', hm⟩ := h
+      rcases List.mem_cons.mp hm with heq | hm'
+      · simp only [Prod.mk.injEq] at heq
+        simp [heq.1]
+      · obtain ⟨d, hd⟩ := ih ⟨sc', hm'⟩
+        rw [hr] at hd
+        cases hd
 
 end SqlglotModel.Lineage
